@@ -77,14 +77,20 @@ def run(rng, tier, res=None):
                 o.propagate_labels(); pq = lambda m: m.predict(Q, I_val=(Iq if pre else None))  # noqa
             p0 = pq(o)
             s0 = model_state(o)
-            path = os.path.join(tmp, f"m{case}.pkl")
+            path = os.path.join(tmp, "model.pkl" if case % 2 == 0 else f"m{case}.pkl")   # a path that is written again and again
             o.save(path)
+            s0b = model_state(o)
             s1 = model_state(o)
             p1 = pq(o)
             fresh = {"sup": SupervisedOPF, "semi": SemiSupervisedOPF, "knn": KNNSupervisedOPF, "unsup": UnsupervisedOPF}[kind]()
             fresh.load(path)
             s2 = model_state(fresh)
             p2 = pq(fresh)
+            # a second load of the same file must give an independent object with the saved state
+            fresh2 = type(fresh)()
+            fresh2.load(path)
+            if model_state(fresh2) != s0b:
+                viol(f"{kind}/{metric}: a second load of the same file differs from the saved state (loads share or cache state)", meta)
         except Exception as ex:
             viol(f"{kind}/{metric}: {type(ex).__name__}: {ex}", meta)
             continue
